@@ -12,7 +12,7 @@ META = {
              'descriptor'),
     'required_obs': {'quick': ['frame-checked', 'c08-cast', 'c08-width1-2d', 'c08-element-limit>dimension',
                                'c08-user-dimension', 'c08-user-el-larger', 'c08-inconsistent-tried', 'c08-multi-frame',
-                               'c08-shared-channel', 'c08-channel-in-no-frame']},
+                               'c08-shared-channel', 'c08-channel-in-no-frame', 'c08-struct-aligned', 'c08-struct-view']},
     'assumptions': ['an inconsistent user-supplied dimension / element limit may be rejected; only successful writes '
                     'are constrained'],
 }
@@ -22,6 +22,8 @@ META['required_obs']['thorough'] = META['required_obs']['quick']
 def cases(tier, seed):
     for k in range(500 if tier == 'quick' else 12000):
         yield {'stratum': 'random', 'index': k, 'kind': 'random'}
+    for k in range(100 if tier == 'quick' else 3000):
+        yield {'stratum': 'struct-fastpath', 'index': k, 'kind': 'fastpath'}
     i = 0
     for dt in gen.DTYPES:
         for cast in gen.DTYPES:
@@ -49,6 +51,11 @@ def run_case(case):
         sp['write'] = {'source': r.choice(['inline', 'dict', 'struct', 'hdf5']), 'output_chunk_size': 2 ** 16}
         classes = ['cast']
         inconsistent = False
+    elif case['kind'] == 'fastpath':
+        sp = gen.fastpath_spec(r)
+        classes = ['struct-' + (sp['write'].get('struct_variant') or 'packed')]
+        inconsistent = False
+        bump('c08-struct-' + (sp['write'].get('struct_variant') or 'packed'))
     else:
         nfr = r.choice([1, 1, 2, 3])
         sp = gen.frame_spec(r, casts=True, nframes=nfr, fills=('pos', 'safe'))
